@@ -702,18 +702,22 @@ fn pbkw_keys(ver: Ver, pw: &[u8], salt: &[u8], params: &PwParams) -> MR<(Vec<u8>
             Ok((ek, ak))
         }
         (false, PwParams::Argon2id { mem_bytes, time, para }) => {
-            if *para != 1 {
-                return Err("model: libsodium supports parallelism 1 only".into());
-            }
-            let k = crypto_pwhash::pwhash(
-                32,
-                pw,
-                salt,
-                *time as u64,
-                *mem_bytes as usize,
-                crypto_pwhash::ALG_ARGON2ID13,
-            )
-            .map_err(|e| format!("argon2id: {e}"))?;
+            let k = if *para == 1 {
+                crypto_pwhash::pwhash(32, pw, salt, *time as u64, *mem_bytes as usize, crypto_pwhash::ALG_ARGON2ID13)
+                    .map_err(|e| format!("argon2id: {e}"))?
+            } else {
+                // libsodium fixes parallelism at 1; for p > 1 the primitive comes from the argon2
+                // crate (the composition around it stays the model's own)
+                if mem_bytes % 1024 != 0 {
+                    return Err("model: memory must be a multiple of 1 KiB".into());
+                }
+                let params = argon2::Params::new((*mem_bytes / 1024) as u32, *time, *para, Some(32)).map_err(|e| format!("argon2 params: {e}"))?;
+                let mut out = vec![0u8; 32];
+                argon2::Argon2::new(argon2::Algorithm::Argon2id, argon2::Version::V0x13, params)
+                    .hash_password_into(pw, salt, &mut out)
+                    .map_err(|e| format!("argon2: {e}"))?;
+                out
+            };
             let ek = blake2b(None, 32, &[&[0xFF], &k]);
             let ak = blake2b(None, 32, &[&[0xFE], &k]);
             Ok((ek, ak))
